@@ -232,6 +232,12 @@ func (l *ArrayListOfValue) RemoveAt(i int) {
 	*l = s[:len(s)-1]
 }
 
+// Remove all elements, the capacity stays the same.
+func (l *ArrayListOfValue) Clear() {
+	clear(*l)
+	*l = (*l)[:0]
+}
+
 func (l *ArrayListOfValue) LeftCapacity() int {
 	return l.Capacity() - l.Length()
 }
